@@ -44,6 +44,16 @@ def whereKwNorm : Option Expr → List Tok
   | some _ => [kwT "WHERE"]
   | none => []
 
+def limitKwNorm : Option Expr → List Tok
+  | some _ => [kwT "LIMIT"]
+  | none => []
+
+/-- the keyword of a dialect-specific column option as `Display` spells it -/
+def dialectNorm (t : Tok) : Tok :=
+  match t with
+  | .word _ _ (some k) => kwTi k
+  | _ => noText.tok
+
 def Insert.norm (i : Insert) : Insert :=
   ⟨kwT "INSERT", if i.into.isEmpty then [] else [kwT "INTO"], if i.tableKw.isEmpty then [] else [kwT "TABLE"], i.name,
    i.cols.norm, i.src.norm, retKwNorm i.returning, sepNorm SelectItem.norm i.returning⟩
@@ -62,7 +72,7 @@ def Delete.norm (d : Delete) : Delete :=
   ⟨kwT "DELETE", sepNorm id d.tables, d.frm.norm, setHead (kwT "USING") d.usng.norm, whereKwNorm d.selection,
    d.selection.map Expr.norm, retKwNorm d.returning, sepNorm SelectItem.norm d.returning,
    if d.order.isEmpty then [] else [kwT "ORDER", kwT "BY"], sepNorm OrderByExpr.norm d.order,
-   (match d.limit with | some _ => [kwT "LIMIT"] | none => []), d.limit.map Expr.norm⟩
+   limitKwNorm d.limit, d.limit.map Expr.norm⟩
 
 def ColOpt.norm : ColOpt → ColOpt
   | .null _ => .null (kwT "NULL")
@@ -72,7 +82,7 @@ def ColOpt.norm : ColOpt → ColOpt
   | .unique _ => .unique (kwT "UNIQUE")
   | .check _ _ e _ => .check (kwT "CHECK") (.sym .LParen) e.norm (.sym .RParen)
   | .comment _ s => .comment (kwT "COMMENT") (match s with | .sqs v => .sqs v | _ => noText.tok)
-  | .dialect t => .dialect (match t with | .word _ _ (some k) => kwTi k | _ => noText.tok)
+  | .dialect t => .dialect (dialectNorm t)
   | .references _ name cols => .references (kwT "REFERENCES") name cols.norm
 
 def ColDef.norm (cd : ColDef) : ColDef := ⟨cd.name, cd.ty, toksOf (dtPiecesD cd.ty), cd.opts.map ColOpt.norm, []⟩
@@ -209,7 +219,7 @@ theorem toksOf_deletePieces (d : Delete) (h : headOk d.usng) : toksOf d.pieces =
     · have : d.order = [] := by simpa using hh
       rw [this]; rfl
   rw [h1, h2]
-  cases d.limit <;> simp [optFlat, Pratt.toksOf_append, Pratt.toksOf_spaced, toksOf_exprPieces]
+  cases d.limit <;> simp [limitKwNorm, optFlat, Pratt.toksOf_append, Pratt.toksOf_spaced, toksOf_exprPieces]
 
 theorem toksOf_colOptPieces (o : ColOpt) : toksOf o.pieces = o.norm.flatten := by
   cases o with
